@@ -1459,3 +1459,7 @@ mut("list_remove_tail_not_updated", ["C11", "C03"], "LST-1|utils::linked_list::L
     note="removing the newest node leaves `tail` pointing at it: later pushes hang off a removed node and are invisible from the head")
 mut("list_remove_prev_link_not_repaired", ["C11", "C03"], "LST-1|utils::linked_list::LinkedList::<T>::remove_node|successor.prev=node.prev", patch="list_remove_prev_link_not_repaired.diff")
 mut("list_push_old_tail_not_linked", ["C11", "C03"], "LST-1|utils::linked_list::LinkedList::<T>::push_node|oldtail.next=node", patch="list_push_old_tail_not_linked.diff")
+mut("revert_D20", ["C17"], "ORD-15|db::DB::destroy_database|lock-file-unlinked-while-locked", patch="revert_D20_lock_released_before_unlink.diff",
+    note="destroy_database releases the lock before it unlinks LOCK (defect D20)")
+mut("revert_D21", ["C15", "C12"], "ORD-23|logs::LogReader::read_physical_record|a-completely-read-fragment-is-always-counted", patch="revert_D21_fragment_counted_after_parse.diff",
+    note="a fragment that fails its checksum is not counted: the reader loses its alignment with the file (defect D21)")
